@@ -1070,6 +1070,7 @@ func emptyStreamMessages(o *hx.Out) {
 							}
 							got = append(got, m.Count)
 						}
+						runtime.KeepAlive(cs)
 					} else {
 						final = err
 					}
@@ -1243,6 +1244,7 @@ func nilAndSkewedSingleResponses(o *hx.Out) {
 				cs.SendMsg(&hx.Msg{Count: 3})
 				cs.CloseSend()
 				err = cs.RecvMsg(out)
+				runtime.KeepAlive(cs)
 			}
 			cancel()
 			ok := (err == nil) == c.wantOK && (!c.wantOK || out.Count == 1)
